@@ -1,130 +1,2 @@
-import FmtModel.Lemmas.SerialParse
-import FmtModel.Classes.Storage
-/-
-  C09 — Serial and Storage are exact on integers of any size.
-
-  Proved for EVERY natural number n (no bound on its size), in strict and non-strict mode, on the
-  pattern text, priorities table and anchors regenerated from the source:
-  * `C09_serial_parse_decimal`   parsing `str(n)` with `%n` yields an object whose value is n;
-  * `C09_serial_parse_zeros`     … also with any number of extra leading zeros;
-  * `C09_serial_from_value`      `from_value(n)` has value n;
-  * `C09_serial_render_*`        the renderers are Python's `str(n)`, `rjust`, `{:0wb}`, `{:,}`, `{:_}`.
-  Kernel-evaluated instances cover the other spellings (`%p %b %c %u`) and the Storage unit
-  arithmetic at sizes up to 10^26; their statements for all n are validated by the sweep
-  (`harness/props/C09.py`, exact rationals), not proved.
--/
-namespace C09
-open Py Engine Serial
-
-theorem fmtOrBase_n : fmtOrBase Serial.cls (some "%n".toList) = "%n".toList := by decide
-
-/-- parsing a non-empty run of ASCII digits with `%n` gives the object whose `number` is that text -/
-theorem parse_digits (s : Str) (hne : s ≠ []) (hd : ∀ c ∈ s, isAsciiDigit c = true) (strict : Bool) :
-    Engine.parse Serial.cls s (some "%n".toList) strict = .ok (objNumber s) := by
-  unfold Engine.parse
-  rw [fmtOrBase_n, pattern_n]
-  simp only [bind, Except.bind, parseWith, search_reN s hd, groupdict_reN, init_number s hne strict, wrapValueErrors]
-
-theorem C09_serial_parse_decimal (n : Nat) (strict : Bool) :
-    ∃ o, Engine.parse Serial.cls (showNat n) (some "%n".toList) strict = .ok o ∧ Serial.value o = .ok n := by
-  refine ⟨objNumber (showNat n), parse_digits _ (showNat_ne_nil n) (showNat_digits n) strict, ?_⟩
-  have : Serial.string (objNumber (showNat n)) = showNat n := rfl
-  simp [Serial.value, this, pyInt_showNat, bind, Except.bind, pure, Except.pure]
-
-/-- leading zeros do not change the decimal value -/
-theorem digitsVal_zeros (k : Nat) (l : Str) (h : ∀ c ∈ l, isAsciiDigit c = true) :
-    digitsVal 10 (List.replicate k '0' ++ l) 0 = digitsVal 10 l 0 := by
-  have hz : ∀ c ∈ List.replicate k '0', isAsciiDigit c = true := by
-    intro c hc; rw [List.eq_of_mem_replicate hc]; decide
-  have hall : ∀ c ∈ List.replicate k '0' ++ l, isAsciiDigit c = true := by
-    intro c hc
-    rcases List.mem_append.mp hc with h1 | h1
-    · exact hz c h1
-    · exact h c h1
-  rw [digitsVal_eq_ofDigitChars _ _ hall, digitsVal_eq_ofDigitChars _ _ h, Nat.ofDigitChars_append,
-    Nat.ofDigitChars_replicate_zero]
-  simp
-
-theorem C09_serial_parse_zeros (n k : Nat) (strict : Bool) :
-    ∃ o, Engine.parse Serial.cls (List.replicate k '0' ++ showNat n) (some "%n".toList) strict = .ok o
-       ∧ Serial.value o = .ok n := by
-  have hz : ∀ c ∈ List.replicate k '0', isAsciiDigit c = true := by
-    intro c hc; rw [List.eq_of_mem_replicate hc]; decide
-  have hall : ∀ c ∈ List.replicate k '0' ++ showNat n, isAsciiDigit c = true := by
-    intro c hc
-    rcases List.mem_append.mp hc with h1 | h1
-    · exact hz c h1
-    · exact showNat_digits n c h1
-  have hne : List.replicate k '0' ++ showNat n ≠ [] := by
-    intro h; exact showNat_ne_nil n (List.append_eq_nil_iff.mp h).2
-  refine ⟨_, parse_digits _ hne hall strict, ?_⟩
-  have hs : Serial.string (objNumber (List.replicate k '0' ++ showNat n)) = List.replicate k '0' ++ showNat n := rfl
-  have hv : pyInt (List.replicate k '0' ++ showNat n) = .ok (n : Int) := by
-    unfold pyInt
-    rw [pyIntBase_digits _ hne hall, digitsVal_zeros k _ (showNat_digits n), digitsVal_showNat]
-    rfl
-  simp [Serial.value, hs, hv, bind, Except.bind, pure, Except.pure]
-
-theorem fromValue_keys :
-    (do let baseToks ← tokens Gen.from_value_token_re Serial.cls.baseFmt
-        pure ((Serial.cls.rows.map (·.1)).filter fun k => baseToks.contains k)) = (.ok ["%n".toList] : R (List Str)) := by
-  decide +kernel
-
-/-- `Serial.from_value(n)` has value n, for every n -/
-theorem C09_serial_from_value (n : Nat) :
-    ∃ o, Engine.fromValue Serial.cls n = .ok o ∧ Serial.value o = .ok n := by
-  obtain ⟨o, ho, hv⟩ := C09_serial_parse_decimal n false
-  refine ⟨o, ?_, hv⟩
-  unfold Engine.fromValue
-  have hk := fromValue_keys
-  cases ht : tokens Gen.from_value_token_re Serial.cls.baseFmt with
-  | error e => simp [ht, bind, Except.bind] at hk
-  | ok toks =>
-    simp only [ht, bind, Except.bind, pure, Except.pure] at hk ⊢
-    injection hk with hk
-    rw [hk]
-    have hr : Serial.cls.render "%n".toList n = .ok (showNat n) := rfl
-    simp only [List.mapM_cons, List.mapM_nil, hr, bind, Except.bind, pure, Except.pure, List.isEmpty_cons,
-      Bool.false_eq_true, ↓reduceIte, join]
-    exact ho
-
-/-- the renderers are Python's integer formats -/
-theorem C09_serial_render (n : Nat) :
-    Serial.cls.render "%n".toList n = .ok (showNat n)
-  ∧ Serial.cls.render "%p".toList n = .ok (toPadding Gen.serial_max_padding (showNat n))
-  ∧ Serial.cls.render "%b".toList n = .ok (showBinPad Gen.serial_max_binary n)
-  ∧ Serial.cls.render "%c".toList n = .ok (showThousands ',' n)
-  ∧ Serial.cls.render "%u".toList n = .ok (showThousands '_' n) := ⟨rfl, rfl, rfl, rfl, rfl⟩
-
--- the other spellings and the Storage units, on concrete sizes (kernel evaluation) -------------------
-
-def serialRoundTrip (n : Nat) (d : String) : Bool :=
-  match Serial.cls.render d.toList n with
-  | .ok text =>
-    (match Engine.parse Serial.cls text (some d.toList) true with
-     | .ok o => Serial.value o == .ok n
-     | .error _ => false)
-  | .error _ => false
-
-theorem C09_serial_spellings :
-    ∀ n ∈ [0, 1, 7, 10, 100, 255, 999], ∀ d ∈ ["%n", "%p", "%b", "%c", "%u"], serialRoundTrip n d = true := by
-  decide +kernel
-
-theorem C09_serial_big :
-    ∀ n ∈ [9007199254740993, 10000000000000000000000000000007, 1267650600228229401496703205376],
-      ∀ d ∈ ["%n", "%c", "%u"], serialRoundTrip n d = true := by decide +kernel
-
-def storageUnit (N : Nat) (d unit : String) (k : Nat) : Bool :=
-  match Engine.parse Storage.cls (showNat N ++ unit.toList) (some d.toList) false with
-  | .ok o =>
-    Storage.string o == showNat (N * 8 * 1024 ^ k)
-      && (match Engine.format Storage.cls o d.toList with | .ok t => t == showNat N ++ unit.toList | .error _ => false)
-  | .error _ => false
-
-theorem C09_storage_units :
-    ∀ N ∈ [0, 1, 7, 1023, 1024, 123456789],
-      storageUnit N "%B" "B" 0 = true ∧ storageUnit N "%K" "KB" 1 = true ∧ storageUnit N "%M" "MB" 2 = true
-    ∧ storageUnit N "%G" "GB" 3 = true ∧ storageUnit N "%T" "TB" 4 = true ∧ storageUnit N "%P" "PB" 5 = true := by
-  decide +kernel
-
-end C09
+import FmtModel.Props.C09g
+import FmtModel.Props.C09p
